@@ -27,6 +27,7 @@ class State:
         self.pending = {}  # tuple local -> (op, a, b)
         self.guarded = set()   # (('le', a_term, b_term), fact): fact holds whenever a ≤ b
         self.refto = {}        # local holding `&local` -> that local
+        self.ordelem = {}      # Ordering local (or its discriminant) -> (pos, {-1: P, 0: P, 1: P})  from Ord::cmp on an element
         self.dead = False
 
     def copy(self):
@@ -36,6 +37,7 @@ class State:
         s.pending = dict(self.pending)
         s.guarded = set(self.guarded)
         s.refto = dict(self.refto)
+        s.ordelem = dict(self.ordelem)
         s.dead = self.dead
         return s
 
@@ -368,6 +370,15 @@ class SegmentAnalysis:
             else:
                 st.bools.pop(l, None)
             return
+        if rv["k"] == "discr" and not rv["pl"]["p"]:
+            if rv["pl"]["l"] in st.ordelem:
+                st.ordelem[l] = st.ordelem[rv["pl"]["l"]]
+            else:
+                st.ordelem.pop(l, None)
+            return
+        if rv["k"] == "use" and rv["a"]["k"] in ("move", "copy") and not rv["a"]["pl"]["p"] and rv["a"]["pl"]["l"] in st.ordelem:
+            st.ordelem[l] = st.ordelem[rv["a"]["pl"]["l"]]
+            return
         if rv["k"] == "unop" and rv["op"] == "Not" and rv["a"]["k"] in ("move", "copy") and not rv["a"]["pl"]["p"]:
             src = st.bools.get(rv["a"]["pl"]["l"])
             if src:
@@ -432,6 +443,9 @@ class SegmentAnalysis:
             self.on_call(t, bb, self, st)
         # element predicates
         ep = self.elem_pred(t, bb, self, st)
+        if ep is not None and not d["p"] and isinstance(ep[1], dict):
+            st.ordelem[d["l"]] = ep           # (pos, {ordering value: predicate})
+            return [st]
         if ep is not None and not d["p"]:
             pos, P = ep
             st.bools[d["l"]] = ("elem", pos, P)
@@ -505,6 +519,18 @@ class SegmentAnalysis:
                 return st
             self.assume(st, info, truth)
             st.promote()
+            return st
+        if l in st.ordelem:
+            pos, table = st.ordelem[l]
+            norm = lambda v: -1 if v in (255, 65535, 4294967295, 18446744073709551615, -1) else v
+            vals = [norm(v) for v, _ in t["arms"]]
+            taken = [norm(v) for v, tgt in t["arms"] if tgt == nxt and nxt != t["otherwise"]]
+            if not taken and nxt == t["otherwise"]:
+                taken = [x_ for x_ in (-1, 0, 1) if x_ not in vals]
+            preds = {table.get(v) for v in taken}
+            if len(preds) == 1 and None not in preds:
+                st.add_pt(pos, preds.pop())
+                st.promote()
             return st
         if l in self.int_locals:
             x = self.name(l)
